@@ -30,7 +30,7 @@ type ingressWitness struct {
 }
 
 func layerIngress(h *harness.H) {
-	h.AddRule("ingress: case = op set (5-25 remote set/delete ops, 1-4 keys, versions 1..7 with cross-leaseholder ties, 1-3 remote leaseholders) + per-replica permutation/duplication/batching + interleaved replica-local writes, delivered to 2-4 real filterPersist/versionAssigner+persist replicas; distinct = hash of op set and per-replica delivery order; non-trivial = at least one op accepted and one rejected on some replica")
+	h.AddRule("ingress: case = op set (5-25 remote set/delete ops, 1-4 keys, versions 1..7 with cross-leaseholder ties, 1-3 remote leaseholders) + per-replica permutation/duplication/batching + interleaved replica-local transactions of 1-3 ops whose leases are decided up to many deliveries before they commit (stale-lease races), delivered to 2-4 real filterPersist/versionAssigner+persist replicas; distinct = hash of op set and per-replica delivery order; non-trivial = at least one op accepted and one rejected on some replica")
 	n := h.N(3000, 150000)
 	par := runtime.GOMAXPROCS(0)
 	if par > 16 {
@@ -130,9 +130,14 @@ func ingressCase(h *harness.H, c int) {
 				}
 			}
 		} else {
+			// a local transaction: its leases were decided earlier (tx.Set time); at commit
+			// the same rule decides, op by op, against what the replica holds NOW
 			for _, id := range st.Ops {
 				o := t.Ops[id]
-				cur[o.Key] = aspenkit.KeyState{HasDigest: true, Version: o.Version, Lease: o.Lease, DigestDel: o.Del, Present: !o.Del, Value: o.Value}
+				ks := cur[o.Key]
+				if !ks.HasDigest || aspenkit.Newer(o.Version, o.Lease, ks.Version, ks.Lease) {
+					cur[o.Key] = aspenkit.KeyState{HasDigest: true, Version: o.Version, Lease: o.Lease, DigestDel: o.Del, Present: !o.Del, Value: o.Value}
+				}
 			}
 		}
 		nAcc += len(st.Accepted)
@@ -165,9 +170,13 @@ func ingressCase(h *harness.H, c int) {
 		}
 	}
 	// (ii) same set received => identical, maximal state
+	// (ops a local commit did not forward are never gossiped: only their origin has them,
+	// and there they lost, so they are not part of the common set)
 	all := map[int]bool{}
 	for _, o := range t.Ops {
-		all[o.ID] = true
+		if !o.Lost {
+			all[o.ID] = true
+		}
 	}
 	for ri, f := range t.Final {
 		for id := range all {
@@ -200,6 +209,10 @@ func ingressCase(h *harness.H, c int) {
 	}
 	h.Count("ingress_batches", t.NBatches)
 	h.Count("ingress_local_writes", t.NLocal)
+	h.Count("ingress_local_ops", t.NLocalOps)
+	h.Count("ingress_local_ops_lost_at_commit", t.NLocalLost)
+	h.Count("ingress_local_multi_op_txs", t.NLocalMulti)
+	h.Count("ingress_local_txs_with_winner_and_loser", t.NLocalMixed)
 	h.Count("ingress_ops_accepted", nAcc)
 	h.Count("ingress_ops_rejected", nRej)
 	h.Count("ingress_duplicate_deliveries", t.NDupDeliveries)
